@@ -329,9 +329,7 @@ theorem no_panic : ∀ f : Nat,
       simp only [atoms]
       split
       · rename_i s r
-        cases intLeaf s with
-        | none => simp
-        | some t => exact hAt _ _
+        exact hAt _ _
       · exact hAt _ _
       · rename_i r
         cases hp : parseExp f r with
@@ -354,13 +352,20 @@ theorem no_panic : ∀ f : Nat,
 
 /-- **The parser model never panics**: on no token sequence does the Pratt driver reach one of its
 `panic!` / `expect` sites. -/
-theorem parseToks_no_panic (toks : List Tok) : parseToks toks ≠ .error .panic := by
-  unfold parseToks
+theorem parseToksRaw_no_panic (toks : List Tok) : parseToksRaw toks ≠ .error .panic := by
+  unfold parseToksRaw
   have := (no_panic (parseFuel toks)).1 toks
   cases hp : parseExp (parseFuel toks) toks with
   | error e => simp only; intro h; injection h with h; exact err_ne hp this h
   | ok p =>
     obtain ⟨t, rest⟩ := p
     cases rest <;> simp
+
+theorem parseToks_no_panic (toks : List Tok) : parseToks toks ≠ .error .panic := by
+  unfold parseToks
+  have := parseToksRaw_no_panic toks
+  cases hp : parseToksRaw toks with
+  | error e => simp only; intro h; injection h with h; exact this (by rw [hp, h])
+  | ok t => simp only; split <;> simp
 
 end Rooc.Syntax.Proofs
